@@ -28,6 +28,7 @@ a node that is no type; `Vec<X>` / `Option<X>` / `Box<X>` keep `base_type = Cust
 structure Dep where
   to : Name
   map : Bool := false
+  arr : Bool := false        -- member `array of (array of X)`: the base atom is the text `Vec<X>` (array_item_type().to_rust_type())
 deriving DecidableEq, Repr, Inhabited
 
 structure Node where
@@ -40,7 +41,12 @@ deriving Repr, Inhabited
 
 def mapAtom (n : Name) : Name := "std::collections::HashMap<String, ".toList ++ n ++ ">".toList
 
-def Dep.atom (d : Dep) : Name := if d.map then mapAtom d.to else d.to
+def arrAtom (n : Name) : Name := "Vec<".toList ++ n ++ ">".toList
+
+def Dep.atom (d : Dep) : Name := if d.map then mapAtom d.to else if d.arr then arrAtom d.to else d.to
+
+/-- the member's base atom is the type name itself (so `build_graph` has an edge to it) -/
+def Dep.plain (d : Dep) : Bool := !d.map && !d.arr
 
 abbrev Graph := List Node
 
@@ -147,7 +153,7 @@ def structKind (k : Kind) : Bool := k != .enum && k != .alias
 
 /-- structs having a member whose base type is `t` (plain edges only: a map atom never names a struct) -/
 def preds (g : Graph) (t : Name) : List Name :=
-  (g.filter fun nd => structKind nd.kind && nd.deps.any fun d => !d.map && d.to == t).map (·.name)
+  (g.filter fun nd => structKind nd.kind && nd.deps.any fun d => d.plain && d.to == t).map (·.name)
 
 def stepSet (sc : Name → List Name) (R : List Name) : List Name :=
   R ++ ((R.flatMap sc).filter fun b => !R.contains b).eraseDups
@@ -165,7 +171,7 @@ def isStruct (g : Graph) (n : Name) : Bool := g.any fun nd => nd.name == n && st
 /-- which members get `ValidationAttribute::Nested` -/
 def nestedFlags (g : Graph) (nd : Node) : List Bool :=
   let R := nestedSet g
-  nd.deps.map fun d => !d.map && R.contains d.to
+  nd.deps.map fun d => d.plain && R.contains d.to
 
 /-- `update_struct`: a Schema struct that is ResponseOnly loses all validation attributes -/
 def cleared (u : Usage) (nd : Node) : Bool := nd.kind == .schema && usageOf u nd.name == .responseOnly
@@ -222,6 +228,8 @@ structure Ref where
   to : Name
   map : Bool
   vec : Bool
+  wrap : Bool := false       -- the mention is not the whole type (it sits below Option / Vec / EventStream / a map)
+  arr : Bool := false        -- below a Vec/Option that is itself inside a Vec: part of an opaque `Vec<X>` / `Option<X>` atom
 deriving DecidableEq, Repr, Inhabited
 
 structure Fld where
@@ -231,6 +239,10 @@ structure Fld where
   len : Bool := false
   sep : Bool := false
   sepStr : Bool := false
+  opt : Bool := false        -- the member type is `Option<..>`
+  serdeAsAttr : Bool := false -- the member carries `#[serde_as(as = "..")]`
+  asOpt : Bool := false      -- … whose adapter is `Option<..>`
+  hdrOpt : Bool := false     -- `impl TryFrom<&X> for http::HeaderMap` reads the member with `if let Some(value) = &headers.f`
   dur : Bool := false
 deriving Repr, Inhabited
 
@@ -246,6 +258,9 @@ structure Item where
   fields : List Fld := []
   variants : List Name := []
   evstream : Bool := false
+  serdeAs : Bool := false    -- the struct carries `#[serde_with::serde_as]`
+  reqStruct : Bool := false  -- an operation request struct (derives no PartialEq): its `body` member is sent (client) / extracted (server)
+  respEnum : Bool := false   -- a response enum (derives neither PartialEq nor serde): its payloads are decoded (client) / sent as Json (server)
   intoResp : Bool := false
   params : List Name := []
   bytesBody : Bool := false
@@ -264,7 +279,10 @@ deriving Repr, Inhabited
 inductive Viol
   | undefinedType (name : Name)
   | privateAcross (file name : Name)
-  | serde (item target : Name) (ser viaMap : Bool)
+  | serde (item target : Name) (ser viaMap viaArr viaResp : Bool)
+  | bodyCap (item target : Name) (ser viaMap viaArr viaWrap : Bool)
+  | headerOptMismatch (item : Name)
+  | serdeAsMismatch (item member : Name)
   | nestedNoValidate (item target : Name)
   | lengthNeedsSer (item target : Name)
   | dupParam (item : Name)
@@ -298,12 +316,36 @@ def capable (m : Mod) (sel : Item → Bool) : Nat → Name → Bool
       if it.kind == "alias".toList then it.fields.all fun fd => fd.refs.all fun r => capable m sel f r.to
       else sel it
 
+/-- the types below `n` (looking through aliases) that lack a capability, each with "was a map / a nested array crossed
+on the way" — `type R = HashMap<String, E>` is an alias NODE whose target atom is opaque, so the break is at `E` -/
+def incapable (m : Mod) (sel : Item → Bool) : Nat → Name → Bool → Bool → List (Name × Bool × Bool)
+  | 0, _, _, _ => []
+  | f + 1, n, mp, ar =>
+    match m.find n with
+    | none => []
+    | some it =>
+      if it.kind == "alias".toList then
+        it.fields.flatMap fun fd => fd.refs.flatMap fun r => incapable m sel f r.to (mp || r.map) (ar || r.arr)
+      else if sel it then [] else [(n, mp, ar)]
+
 def serdeViols (m : Mod) : List Viol :=
   m.types.flatMap fun it =>
     if it.kind == "alias".toList then [] else
     it.fields.flatMap fun fd => fd.refs.flatMap fun r =>
-      (if it.ser && !capable m (·.ser) 4 r.to then [Viol.serde it.name r.to true r.map] else []) ++
-      (if it.de && !capable m (·.de) 4 r.to then [Viol.serde it.name r.to false r.map] else [])
+      -- a response enum needs its payload types decodable (client: parse_response) / encodable (server: axum::Json)
+      let server := m.mode == "server-mod".toList
+      (if it.ser || (it.respEnum && server) then (incapable m (·.ser) 4 r.to r.map r.arr).map fun (t, mp, ar) => Viol.serde it.name t true mp ar (it.respEnum && r.wrap) else []) ++
+      (if it.de || (it.respEnum && !server) then (incapable m (·.de) 4 r.to r.map r.arr).map fun (t, mp, ar) => Viol.serde it.name t false mp ar (it.respEnum && r.wrap) else [])
+
+/-- the `body` member of a request struct is handed to `.json(..)` / `.form(..)` (client: needs Serialize) or comes out
+of `axum::Json<..>` / `Form<..>` (server: needs Deserialize) -/
+def bodyViols (m : Mod) : List Viol :=
+  let server := m.mode == "server-mod".toList
+  m.types.flatMap fun it =>
+    -- `generate types` writes no client / server half: nothing sends or extracts the body there
+    if !(it.kind == "struct".toList && it.reqStruct) || m.mode == "types".toList then [] else
+    (it.fields.filter (·.name == "body".toList)).flatMap fun fd => fd.refs.flatMap fun r =>
+      (incapable m (fun x => if server then x.de else x.ser) 4 r.to r.map r.arr).map fun (t, mp, ar) => Viol.bodyCap it.name t (!server) mp ar r.wrap
 
 def nameViols (m : Mod) : List Viol :=
   (m.mentions.flatMap fun (file, names) =>
@@ -319,7 +361,7 @@ def nameViols (m : Mod) : List Viol :=
 
 def validateViols (m : Mod) : List Viol :=
   m.types.flatMap fun it => it.fields.flatMap fun fd =>
-    (if fd.nested then fd.refs.flatMap fun r => if !r.map && !capable m (·.val) 4 r.to then [Viol.nestedNoValidate it.name r.to] else [] else []) ++
+    (if fd.nested then fd.refs.flatMap fun r => if !r.map && !r.arr && !capable m (·.val) 4 r.to then [Viol.nestedNoValidate it.name r.to] else [] else []) ++
     (if fd.len then fd.refs.flatMap fun r => if r.vec && !r.map && !capable m (·.ser) 4 r.to then [Viol.lengthNeedsSer it.name r.to] else [] else [])
 
 def endsWith (s suf : Name) : Bool := (s.drop (s.length - suf.length)) == suf && suf.length ≤ s.length
@@ -340,6 +382,10 @@ def shapeViols (m : Mod) : List Viol :=
     (if it.kind == "ctor".toList && hasDup it.params then [Viol.dupParam it.name] else []) ++
     (if it.kind == "struct".toList && hasDup (it.fields.map (·.name)) then [Viol.dupMember it.name] else []) ++
     (if it.kind == "enum".toList && hasDup it.variants then [Viol.dupMember it.name] else []) ++
+    (if it.kind == "struct".toList && it.fields.any (fun fd => fd.hdrOpt && !fd.opt) then [Viol.headerOptMismatch it.name] else []) ++
+    -- attribute / type agreement: a `serde_as` adapter wraps in `Option<..>` exactly when the member type does, and the
+    -- member attribute needs `#[serde_as]` on the struct
+    (if it.kind == "struct".toList then (it.fields.filter fun fd => fd.serdeAsAttr && (fd.asOpt != fd.opt || !it.serdeAs)).map (fun fd => Viol.serdeAsMismatch it.name fd.name) else []) ++
     (if it.kind == "struct".toList && it.fields.any (fun fd => fd.sep && !fd.sepStr) then [Viol.sepNonString it.name] else []) ++
     (if it.kind == "enum".toList && it.intoResp && it.evstream then [Viol.evstreamJson it.name] else []) ++
     (if it.kind == "fn".toList && it.file == "server".toList && it.bytesBody then [Viol.serverBytesBody it.name] else []) ++
@@ -352,7 +398,7 @@ def shapeViols (m : Mod) : List Viol :=
       !((m.imports.filter (·.1 == "types".toList)).flatMap (·.2)).contains d)).map Viol.missingImport
 
 /-- the well-formedness judgement: the list of violated closure obligations (empty = well-formed) -/
-def violations (m : Mod) : List Viol := nameViols m ++ serdeViols m ++ validateViols m ++ shapeViols m
+def violations (m : Mod) : List Viol := nameViols m ++ serdeViols m ++ bodyViols m ++ validateViols m ++ shapeViols m
 
 def WF (m : Mod) : Bool := (violations m).isEmpty
 
@@ -362,7 +408,16 @@ def WF (m : Mod) : Bool := (violations m).isEmpty
 def classOf (m : Mod) : Viol → Option String
   | .undefinedType n => if m.schemas.contains n then some "KnownSchemaNotEmitted" else none
   | .privateAcross _ _ => if m.visFile then some "KnownFileVisModule" else none
-  | .serde _ _ _ viaMap => if viaMap then some "KnownSerdeMapEdge" else none
+  | .serde _ _ _ viaMap viaArr viaResp =>
+      if viaMap then some "KnownSerdeMapEdge" else if viaArr then some "KnownSerdeNestedArrayEdge"
+      -- a response variant's payload type is rebuilt from its TEXT (`TypeRef::new(schema.to_rust_type())` in responses.rs):
+      -- `Option<T>` / `Vec<T>` / `EventStream<T>` are opaque atoms of the response enum's node
+      else if viaResp then some "KnownResponseWrapperPayload" else none
+  | .bodyCap _ _ _ viaMap viaArr viaWrap =>
+      if viaMap then some "KnownSerdeMapEdge" else if viaArr then some "KnownSerdeNestedArrayEdge"
+      -- a nullable-wrapped body `oneOf/anyOf [$ref T, null]` (`Option<T>`): T is not recorded as a request type
+      else if viaWrap then some "KnownRequestWrapperBody" else none
+  | .headerOptMismatch _ => some "KnownRequiredHeaderDefault"
   | .lengthNeedsSer _ _ => some "KnownLengthNeedsSerialize"
   | .dupParam _ => some "KnownRequestParamClash"
   | .sepNonString _ => some "KnownSeparatorNonString"
@@ -382,14 +437,30 @@ structure RErr where
   trait : Name
 deriving Repr, Inhabited
 
+/-- `get_a` and `GetA` name the same operation: compare without underscores and case -/
+def handlerKey (n : Name) : Name := (n.filter (· != '_')).map Char.toLower
+
 def codeIn (c : Name) (l : List String) : Bool := l.any fun s => s.toList == c
 
 /-- which rustc error a violation accounts for -/
 def explains : Viol → RErr → Bool
   | .undefinedType n, e => codeIn e.code ["E0425", "E0412", "E0433", "E0422"] && e.name == n
   | .privateAcross f n, e => codeIn e.code ["E0425", "E0412", "E0433", "E0422", "E0603"] && e.file == f && e.name == n
-  | .serde it tgt ser _, e =>
-      codeIn e.code ["E0277"] && e.iname == it && e.name == tgt && e.trait == (if ser then "Serialize".toList else "Deserialize".toList)
+  | .serdeAsMismatch it _, e => e.ikind == "struct".toList && e.iname == it && codeIn e.code ["E0308", "E0277", "E0271"]
+  | .bodyCap it tgt ser _ _ _, e =>
+      (codeIn e.code ["E0277"] && e.name == tgt && e.trait == (if ser then "Serialize".toList else "Deserialize".toList) &&
+        (e.ikind == "impl".toList || e.ikind == "fn".toList)) ||
+      -- server: the handler whose body extractor cannot decode is no `Handler` (reported in `router`, naming the handler `op_x` of `OpXRequest`)
+      (!ser && codeIn e.code ["E0277"] && e.file == "server".toList && e.iname == "router".toList &&
+        handlerKey e.name ++ "request".toList == handlerKey it)
+  | .headerOptMismatch it, e => e.ikind == "impl".toList && e.iname == it && codeIn e.code ["E0308"]
+  | .serde it tgt ser _ _ _, e =>
+      -- at the holder itself, or DOWNSTREAM at a use site (parse_response / handler / IntoResponse bodies) that needs the same bound
+      (codeIn e.code ["E0277"] && e.name == tgt && e.trait == (if ser then "Serialize".toList else "Deserialize".toList) &&
+        (e.iname == it || e.ikind == "impl".toList || e.ikind == "fn".toList)) ||
+      (ser && codeIn e.code ["E0599"] && e.ikind == "impl".toList && e.iname == it && e.name == "into_response".toList) ||
+      -- client: `<EventStream<T>>::from_response(req)` needs `T: DeserializeOwned` (reported as unsatisfied bounds of the method)
+      (!ser && codeIn e.code ["E0599"] && e.ikind == "impl".toList && e.name == tgt && e.trait == "from_response".toList)
   | .lengthNeedsSer it tgt, e => codeIn e.code ["E0277"] && e.iname == it && e.name == tgt && e.trait == "Serialize".toList
   | .nestedNoValidate it tgt, e => codeIn e.code ["E0277", "E0599"] && e.iname == it && e.name == tgt
   | .dupParam it, e => e.ikind == "impl".toList && e.iname == it && codeIn e.code ["E0308", "E0428", "E0415", "E0201", "E0119", "E0592", "E0382", "E0124"]
@@ -420,7 +491,8 @@ accounted for by a violation of a characterised shape -/
 def judgeA (m : Mod) (errs : List RErr) : Verdict :=
   if errs.isEmpty then ⟨true, []⟩ else
   let vs := (violations m).filter fun v => (classOf m v).isSome
-  if errs.all (fun e => vs.any fun v => explains v e) then
+  -- every WF violation must have a class AND every rustc error must be accounted for by one of them
+  if (violations m).all (fun v => (classOf m v).isSome) && errs.all (fun e => vs.any fun v => explains v e) then
     ⟨false, ((vs.filter fun v => errs.any (explains v)).filterMap (classOf m)).eraseDups⟩
   else ⟨false, []⟩
 
